@@ -9,6 +9,7 @@ import HipVerif.Props.C04Protocol
 import HipVerif.Props.C05
 import HipVerif.Props.C06
 import HipVerif.Props.C06Doors
+import HipVerif.Props.C06Conv
 import HipVerif.Props.C07
 import HipVerif.Props.C08
 import HipVerif.Props.C09
